@@ -52,12 +52,14 @@ STRUCTS = {
 STRUCTS_EXACT = {"RoughPos", "Pos", "Estimate", "Entry"}
 
 ENUMS = {
+    "Result": ("MetaResult", {"OutOfLines": "outOfLines", "Meta": "gotMeta"}),
     "StartArea": ("Impl.StartArea", {"Found": "found", "Clipped": "clipped", "TillEnd": "tillEnd",
                                      "Window": "window", "Gap": "gap"}),
     "EndArea": ("Impl.EndArea", {"Found": "found", "TillEnd": "tillEnd", "Window": "window", "Gap": "gap"}),
 }
 # arity of the Lean constructors (checked against the Rust definition)
 ENUM_ARITY = {
+    "Result": {"OutOfLines": 1, "Meta": 1},
     "StartArea": {"Found": 1, "Clipped": 0, "TillEnd": 1, "Window": 2, "Gap": 1},
     "EndArea": {"Found": 1, "TillEnd": 1, "Window": 2, "Gap": 1},
 }
@@ -85,10 +87,13 @@ TARGETS = [
     ("src/series/data.rs", None, "const:MAX_SMALL_TS", None),
     ("src/series/data/index.rs", "MetaPos", "const:ZERO", None),
     ("src/series/data/inline_meta/meta.rs", None, "lines_per_metainfo", None),
+    ("src/series/data/inline_meta/meta.rs", None, "const:PREAMBLE", None),
     ("src/series/data/index.rs", "PayloadSize", "line_size", None),
     ("src/series/data/index.rs", "PayloadSize", "metainfo_size", None),
     ("src/series/data/index.rs", "MetaPos", "line_start", None),
     ("src/series/data/index.rs", "LinePos", "next_line_start", None),
+    ("src/series/data/inline_meta/meta.rs", None, "write", None),
+    ("src/series/data/inline_meta/meta.rs", None, "read", None),
     ("src/series/data/index.rs", None, "in_gap", None),
     ("src/series/data/index.rs", "Index", "first_meta_timestamp", None),
     ("src/series/data/index.rs", "Index", "len", None),
@@ -115,7 +120,7 @@ LEAN_KEYWORDS = {"end", "at", "from", "open", "section", "then", "do", "fun", "i
                  "def", "instance", "structure", "inductive", "class", "import", "export", "universe", "macro",
                  "syntax", "deriving", "mutual", "private", "protected", "partial", "unsafe", "noncomputable",
                  "meta", "stop", "start"}
-LEAN_KEYWORDS -= {"stop", "start", "meta"}
+LEAN_KEYWORDS -= {"stop", "start"}
 
 
 def mangle(name):
@@ -132,10 +137,23 @@ def norm_type(t, impl=None):
     t = re.sub(r"^mut", "", t) if t.startswith("mut") and not t.startswith("mutable") and len(t) > 3 and t[3].isupper() else t
     if t == "Self" and impl:
         return impl
-    for pre in ("crate::", "super::", "index::", "seek::", "data::", "std::ops::", "core::ops::"):
+    t = re.sub(r"'[a-z_]+", "", t)
+    for pre in ("crate::", "super::", "index::", "seek::", "data::", "std::ops::", "core::ops::", "std::io::"):
         while t.startswith(pre):
             t = t[len(pre):]
     return t
+
+
+def is_bytes(t):
+    return t is not None and (t.startswith("[u8") or t in ("Vec<u8>", "bytes"))
+
+
+def is_iter(t):
+    return t is not None and t.startswith("implIterator<")
+
+
+def is_sink(t):
+    return t is not None and t in ("implWrite", "implstd::io::Write")
 
 
 def generic_arg(t, head):
@@ -216,12 +234,14 @@ class Tr:
         self.ret = norm_type(ret, impl) if ret else ""
         self.ret_is_result = self.ret.startswith("Result<")
         self.scope = {}
+        self.mutables = set()
         self.uses = {}                  # bare variant name -> enum name ; alias -> enum name
         self.aliases = {}
         self.tmp = 0
         self.const_ctx = const_ctx
-        self.mutables = set()
         self.last_ty = None
+        self.sink = None
+        self.iters = []
         for p in params:
             if p[0] == "self":
                 self.scope["self"] = impl
@@ -229,7 +249,14 @@ class Tr:
                 pat, ty = p
                 if pat[0] != "pbind":
                     raise Unsupported("parameter pattern")
-                self.scope[pat[1]] = norm_type(ty, impl)
+                nt = norm_type(ty, impl)
+                self.scope[pat[1]] = nt
+                if is_sink(nt):
+                    self.sink = pat[1]
+                    self.mutables.add(pat[1])
+                if is_iter(nt):
+                    self.iters.append(pat[1])
+                    self.mutables.add(pat[1])
 
     # ------------------------------------------------------------------ helpers
     def fresh(self):
@@ -242,7 +269,7 @@ class Tr:
             return v.stmts, v.term
         if v.kind == "fault":
             raise Unsupported("error value used as a value")
-        if v.kind == "unit":
+        if v.kind in ("unit", "mon_unit"):
             return v.stmts, "()"
         t = self.fresh()
         if v.kind == "mon":
@@ -438,7 +465,8 @@ class Tr:
             if n == "true" or n == "false":
                 return Val([], n, "pure", "bool")
             if (None, n) in self.w.consts and ((None, "const:" + n) in self.generated):
-                return Val([], n, "pure", norm_type(self.w.consts[(None, n)][1]))
+                cty = norm_type(self.w.consts[(None, n)][1])
+                return Val([], n, "pure", "[u8]" if is_bytes(cty) else cty)
         if len(path) == 2 and path[1] == "MAX" and path[0] in ("u16", "u64", "usize", "u32", "u8"):
             bits = {"u8": 8, "u16": 16, "u32": 32, "u64": 64, "usize": 64}[path[0]]
             return Val([], str(2 ** bits - 1), "pure", path[0])
@@ -534,8 +562,39 @@ class Tr:
             return Val(s, f"{t}.{fmap[f]}", "pure", fty)
         raise Unsupported(f"field .{f} on a value of type {ty}")
 
+    def tr_array(self, e):
+        st, ts = [], []
+        for x in e[1]:
+            s_, t, _v = self.atom_of(x)
+            st += s_; ts.append(t)
+        return Val(st, "([" + ", ".join(ts) + "] : Bytes)", "pure", "[u8]")
+
+    def tr_arrayrep(self, e):
+        sv, tv, vv = self.atom_of(e[1])
+        sn, tn, vn = self.atom_of(e[2])
+        return Val(sv + sn, f"(List.replicate {tn} ({tv} : UInt8))", "pure", "[u8]")
+
     def tr_index(self, e):
         sa, ta, va = self.atom_of(e[1])
+        if is_bytes(va.ty):
+            if e[2][0] == "range":
+                _, lo, hi, incl = e[2]
+                if incl:
+                    raise Unsupported("inclusive slice range")
+                st = list(sa)
+                if lo is not None:
+                    s1, tlo, _ = self.atom_of(lo); st += s1
+                if hi is not None:
+                    s2, thi, _ = self.atom_of(hi); st += s2
+                if lo is not None and hi is not None:
+                    return Val(st, f"(Rs.slice {ta} {tlo} {thi})", "mon", "[u8]")
+                if lo is not None:
+                    return Val(st, f"(Rs.sliceFrom {ta} {tlo})", "mon", "[u8]")
+                if hi is not None:
+                    return Val(st, f"(Rs.slice {ta} 0 {thi})", "mon", "[u8]")
+                return Val(st, ta, "pure", "[u8]")
+            sb, tb, vb = self.atom_of(e[2])
+            return Val(sa + sb, f"(Rs.idx {ta} {tb})", "mon", "u8")
         sb, tb, vb = self.atom_of(e[2])
         elem = generic_arg(va.ty, "Vec")
         if elem is None:
@@ -544,6 +603,8 @@ class Tr:
 
     def tr_try(self, e):
         v = self.tr(e[1])
+        if v.kind == "mon_unit":
+            return v
         if v.kind not in ("mon", "code"):
             raise Unsupported("`?` on a value that is not a Result in this translation")
         return v
@@ -589,6 +650,23 @@ class Tr:
             return Val([], "(Except.error Fault.panic)", "mon", None)
         if name in ("debug", "trace", "info", "warn", "error"):
             return Val([], "()", "unit")
+        if name == "vec":
+            from rsparse import Parser
+            toks = e[2]
+            depth = 0
+            semi = None
+            for i, t in enumerate(toks):
+                if t[1] in ("(", "[", "{"):
+                    depth += 1
+                elif t[1] in (")", "]", "}"):
+                    depth -= 1
+                elif t[1] == ";" and depth == 0:
+                    semi = i
+            if semi is None:
+                raise Unsupported("vec! with a list of elements")
+            v = Parser(toks[:semi] + [("eof", "", 0)]).expr()
+            n = Parser(toks[semi + 1:] + [("eof", "", 0)]).expr()
+            return self.tr_arrayrep(("arrayrep", v, n))
         if name in ("assert", "debug_assert"):
             toks = e[2]
             depth = 0
@@ -607,6 +685,20 @@ class Tr:
             st, ct = self.cond(c)
             return Val(st + [("unless", ct, [("throw", "Fault.panic")])], "()", "unit")
         raise Unsupported(f"macro {name}!")
+
+    def copy_from_slice(self, dst, src):
+        """`local[a..b].copy_from_slice(src)` on a local `let mut` byte buffer"""
+        if dst[0] != "index" or dst[1][0] != "path" or len(dst[1][1]) != 1 or dst[1][1][0] not in self.mutables \
+           or dst[2][0] != "range" or dst[2][1] is None or dst[2][2] is None or dst[2][3]:
+            raise Unsupported("copy_from_slice into something other than local[a..b]")
+        name = mangle(dst[1][1][0])
+        s1, tlo, _ = self.atom_of(dst[2][1])
+        s2, thi, _ = self.atom_of(dst[2][2])
+        s3, tsrc, vs = self.atom_of(src)
+        if not is_bytes(vs.ty):
+            raise Unsupported("copy_from_slice from something that is not a byte slice")
+        t = self.fresh()
+        return Val(s1 + s2 + s3 + [("letm", t, f"(Rs.copyFromSlice {name} {tlo} {thi} {tsrc})"), ("assign", name, t)], "()", "mon_unit")
 
     def closure1(self, c, arg_ty):
         """closure of one parameter -> (param name, Val of body)"""
@@ -710,8 +802,23 @@ class Tr:
             if v.ty and name in ("cloned", "copied"):
                 pass
             return v
+        if name == "copy_from_slice":
+            return self.copy_from_slice(recv_e, args[0])
+        if recv_e[0] == "path" and len(recv_e[1]) == 1 and recv_e[1][0] == self.sink and name == "write_all":
+            sx, tx, vx = self.atom_of(args[0])
+            if not is_bytes(vx.ty):
+                raise Unsupported("write_all of something that is not a byte slice")
+            return Val(sx + [("assign", mangle(self.sink), f"{mangle(self.sink)} ++ {tx}")], "()", "mon_unit")
+        if recv_e[0] == "path" and len(recv_e[1]) == 1 and recv_e[1][0] in self.iters and name == "next":
+            it = mangle(recv_e[1][0])
+            t = self.fresh()
+            elem = generic_arg(self.scope[recv_e[1][0]].replace("implIterator<Item=", "X<"), "X")
+            return Val([("letp", t, f"{it}.head?"), ("assign", it, f"{it}.tail")], t, "pure", f"Option<{norm_type(elem)}>")
         recv = self.tr(recv_e)
         ty = recv.ty
+        if is_bytes(ty) and name == "len":
+            s_, t_ = self.atom(recv)
+            return Val(s_, f"{t_}.length", "pure", "usize")
         if (ty, name) in GETTERS:
             s, t = self.atom(recv)
             f = GETTERS[(ty, name)]
@@ -840,7 +947,7 @@ class Tr:
             return v.stmts + [("mon", v.term)]
         if v.kind == "code":
             return v.stmts + [("code", v.term)]
-        if v.kind == "unit":
+        if v.kind in ("unit", "mon_unit"):
             return v.stmts + [("pure", "()")]
         raise Unsupported("error value as the value of a block")
 
@@ -859,6 +966,8 @@ class Tr:
             if x[0] == "path" and x[1] == ["None"]:
                 return [("return", "none")]
             s, t, _v = self.atom_of(x)
+            if self.sink:
+                t = f"({mangle(self.sink)}, {t})"
             return s + [("return", t)]
         if k == "break":
             return [("break",)]
@@ -944,6 +1053,8 @@ class Tr:
         ps, binds = alts[0]
         if mutable:
             self.mutables.add(pat[1])
+        if v.kind == "mon_unit":
+            raise Unsupported("let of a unit effect")
         self.scope.update(binds)
         kw = "letmut" if mutable else "let"
         if v.kind == "pure":
@@ -956,6 +1067,13 @@ class Tr:
 
     def assign_stmt(self, st):
         _, op, lhs, rhs = st
+        if op == "=" and lhs[0] == "index" and lhs[1][0] == "path" and len(lhs[1][1]) == 1 and lhs[1][1][0] in self.mutables \
+           and is_bytes(self.scope.get(lhs[1][1][0])):
+            name = mangle(lhs[1][1][0])
+            s1, ti, _ = self.atom_of(lhs[2])
+            s2, tv, _ = self.atom_of(rhs)
+            t = self.fresh()
+            return s1 + s2 + [("letm", t, f"(Rs.setIdx {name} {ti} {tv})"), ("assign", name, t)]
         if lhs[0] != "path" or len(lhs[1]) != 1 or lhs[1][0] not in self.mutables:
             raise Unsupported("assignment to something other than a local `let mut`")
         name = mangle(lhs[1][0])
@@ -1061,6 +1179,10 @@ def lean_type(t, impl=None):
     t = norm_type(t, impl)
     if t in INT_TYPES or t in NEWTYPES:
         return "Nat"
+    if is_bytes(t):
+        return "Bytes"
+    if is_iter(t):
+        return "(List Bytes)"
     if t == "bool":
         return "Bool"
     if t in STRUCTS:
@@ -1146,7 +1268,8 @@ def translate_all():
                 v = tr.tr(c[2])
                 if v.kind != "pure" or v.stmts:
                     raise Unsupported("constant expression too complex")
-                defs.append((name, [f"def {name} : Nat := {v.term}"]))
+                cty = "Bytes" if is_bytes(norm_type(c[1])) else "Nat"
+                defs.append((name, [f"def {name} : {cty} := {v.term}"]))
                 continue
             info = w.fns.get((impl, fn))
             if not info:
@@ -1155,15 +1278,30 @@ def translate_all():
             body = parse_body(w.toks[file], rng)
             tr = Tr(w, generated, impl, fn, params, ret)
             sig = []
+            pre = []
             for p in params:
                 if p[0] == "self":
                     sig.append(f"(self : {lean_type(impl)})")
+                elif is_sink(norm_type(p[1], impl)):
+                    pre.append(("letmutp", mangle(p[0][1]), "([] : Bytes)"))
                 else:
                     sig.append(f"({mangle(p[0][1])} : {lean_type(p[1], impl)})")
+                    if is_iter(norm_type(p[1], impl)):
+                        pre.append(("letmutp", mangle(p[0][1]), mangle(p[0][1])))
             if extra:
                 sig.append(extra)
             rty = lean_type(ret, impl) if ret else "Unit"
             sq = tr.seq(body, "value")
+            if tr.sink:
+                rty = f"(Bytes × {rty})"
+                last = sq[-1]
+                if last[0] == "pure":
+                    sq = sq[:-1] + [("pure", f"({mangle(tr.sink)}, {last[1]})")]
+                elif last[0] == "mon":
+                    sq = sq[:-1] + [("letm", "ret_", last[1]), ("pure", f"({mangle(tr.sink)}, ret_)")]
+                elif last[0] not in ("return", "throw"):
+                    raise Unsupported("shape of the function's last statement")
+            sq = pre + sq
             lines = [f"def {name} " + " ".join(sig) + f" : R {rty} := do"] + print_seq(sq, 2)
             defs.append((name, lines))
         except Unsupported as ex:
